@@ -94,7 +94,7 @@ def main():
                 agg = _agg_new()
                 want_digests = bool(msg.get("digests"))
                 for index in msg["indices"]:
-                    faulthandler.dump_traceback_later(msg.get("run_cap_s", 300), exit=True)
+                    faulthandler.dump_traceback_later(msg.get("run_cap_s", 1800), exit=True)
                     try:
                         res = mod.run(ctx, index)
                     except HarnessError as e:
@@ -109,7 +109,7 @@ def main():
                             agg["known_hits"][sig] = agg["known_hits"].get(sig, 0) + 1
                             continue
                         # unknown violation: minimise, write replay, verify replay
-                        faulthandler.dump_traceback_later(msg.get("min_cap_s", 900), exit=True)
+                        faulthandler.dump_traceback_later(msg.get("min_cap_s", 2400), exit=True)
                         try:
                             rec = finalize_violation(mod, ctx, index, v)
                         finally:
